@@ -421,6 +421,13 @@ func parseTrace(path string, root string) ([]sysEv, error) {
 func canonSeq(evs []sysEv) string {
 	var parts []string
 	last := ""
+	wdir := ""
+	for _, e := range evs {
+		if e.call != "fsync-dir" && e.call != "fsync-deleted" && e.path != "" {
+			wdir = filepath.Dir(e.path)
+			break
+		}
+	}
 	for _, e := range evs {
 		var s string
 		b := filepath.Base(e.path)
@@ -429,6 +436,9 @@ func canonSeq(evs []sysEv) string {
 			s = fmt.Sprintf("fallocate %s %s", b, e.arg)
 		case "fsync-dir":
 			s = "fsync-dir"
+			if wdir != "" && e.path != wdir {
+				s = "fsync-dir-elsewhere " + b // a directory other than the one holding the files of this call
+			}
 		case "rename":
 			s = fmt.Sprintf("rename %s %s", b, filepath.Base(e.arg))
 		case "open-ro":
@@ -465,7 +475,7 @@ func contractViolations(window []sysEv, label, result string, dirSynced map[stri
 			// the rename must be followed by a directory fsync before the DB is used
 			ok := false
 			for _, f := range window[i+1:] {
-				if f.call == "fsync-dir" {
+				if f.call == "fsync-dir" && f.path == filepath.Dir(e.arg) {
 					ok = true
 					break
 				}
@@ -474,7 +484,7 @@ func contractViolations(window []sysEv, label, result string, dirSynced map[stri
 				}
 			}
 			if !ok {
-				out = append(out, "meta DB renamed into place without a directory fsync before use")
+				out = append(out, "meta DB renamed into place without an fsync of its directory before use")
 			}
 			// and preceded by an fsync of the temporary file after its last write
 			lastW, lastS := -1, -1
@@ -518,20 +528,22 @@ func contractViolations(window []sysEv, label, result string, dirSynced map[stri
 		case "fsync-dir":
 			lastDirSync = i
 			for p := range dirSynced {
-				dirSynced[p] = true
+				if filepath.Dir(p) == e.path {
+					dirSynced[p] = true
+				}
 			}
 		case "unlink":
 			if isWal {
 				// must be followed by a directory fsync inside this window
 				ok := false
 				for _, f := range window[i+1:] {
-					if f.call == "fsync-dir" {
+					if f.call == "fsync-dir" && f.path == filepath.Dir(e.path) {
 						ok = true
 						break
 					}
 				}
 				if !ok {
-					out = append(out, "segment deletion not followed by a directory fsync before the call returned: "+filepath.Base(e.path))
+					out = append(out, "segment deletion not followed by an fsync of its directory before the call returned: "+filepath.Base(e.path))
 				}
 			}
 		}
@@ -638,6 +650,11 @@ func suiteFsdur(seed uint64, tier string) *Report {
 					res := strings.TrimPrefix(e.arg, "op-end ")
 					for _, v := range contractViolations(cur, op, res, dirSynced) {
 						viols = append(viols, Violation{Property: "C07", What: v, Detail: fmt.Sprintf("during `%s` (%d system calls in the window): %s", op, len(cur), clipS(canonSeq(cur)))})
+						if strings.Contains(v, "meta DB") {
+							// the stable store lives in that file: a Set acknowledged before the first append has nothing else
+							// that makes the directory entry durable
+							viols = append(viols, Violation{Property: "C08", What: "the stable store's file is not durably in place when Open returns: " + v, Detail: fmt.Sprintf("during `%s`: %s", op, clipS(canonSeq(cur)))})
+						}
 					}
 					rep.Dist["wal-op:"+strings.Fields(op)[0]]++
 					if len(cur) > 0 {
@@ -664,6 +681,7 @@ func canonMetaInit(evs []sysEv) string {
 	var parts []string
 	seen := map[string]bool{}
 	renamed := false
+	finalDir := ""
 	for _, e := range evs {
 		b := filepath.Base(e.path)
 		var s string
@@ -689,11 +707,15 @@ func canonMetaInit(evs []sysEv) string {
 		case "rename":
 			s = fmt.Sprintf("rename %s %s", b, filepath.Base(e.arg))
 			renamed = true
+			finalDir = filepath.Dir(e.arg)
 		case "fsync-dir":
 			if !renamed {
 				continue
 			}
 			s = "fsync-dir"
+			if finalDir != "" && e.path != finalDir {
+				s = "fsync-dir-elsewhere " + b
+			}
 		default:
 			continue
 		}
